@@ -1,6 +1,7 @@
 """C02 An architecture instance is exactly the derivation closure of the choices made - structural clauses."""
 import ast
 
+from ..rules.match import FnText
 from ..model import AnalysisError, norm
 from ..cfg import build_cfg, node_exprs
 from ..astutil import short, call_name
@@ -274,7 +275,7 @@ def derive_shape(ctx, rule='A5'):
 def status_array_shape(ctx, rule='A5s'):
     im = ctx.prog.cls(INFL)
     fn = ctx.fn(f'{INFL}.get_next_choice_nodes')
-    txt = ' '.join(norm(s) for s in fn.body)
+    txt = FnText(ctx, fn)
     ok = 'Diag.CONFIRMED' in txt and 'status_array[self.choice_idx]' in txt
     ctx.ob(rule, fkey(fn, rule, 'active-iff-confirmed'), ok, fn.where,
            'the next active choices are exactly the choice nodes whose status is CONFIRMED',
